@@ -309,7 +309,7 @@ def run_hook_level(prop, tier, seed, R, scripts_override=None):
             tp = os.path.join(work, "htrace_%d.ndjson" % i)
             vlib.run_harness(exe, ["uci-script", "--in", src, "--out", tp, "--rep", "1" if prop == "C09" else "0"])
             return tp, vlib.validate_trace("UciTrace", "UciTrace.cfg", tp, lambda e: e["ev"] == "start", timeout=3000, xmx="3g")
-        events = positions = reps = rep_true = seen = seen_rep = 0
+        events = positions = reps = rep_true = seen = seen_rep = seen2 = seen2_rep = 0
         maxlen = 0
         for tp, (matched, results, rej) in vlib.parallel(shard, range(len(gens))):
             events += matched
@@ -326,6 +326,9 @@ def run_hook_level(prop, tier, seed, R, scripts_override=None):
                     for x in e.get("seen", []):
                         seen += 1
                         seen_rep += 1 if x[1] else 0
+                    for x in e.get("seen2", []):
+                        seen2 += 1
+                        seen2_rep += 1 if x[2] else 0
                 if e["ev"] == "start":
                     R.coverage["traces_validated_against_impl"] += 1
             classify(prop, rej, R, "hook", lambda rj: script_from_segment(rj["segment"]))
@@ -340,7 +343,8 @@ def run_hook_level(prop, tier, seed, R, scripts_override=None):
                 R.coverage["transitions"] += g[1].generated
         R.coverage["hook_level"] = {"events_matched": events, "position_commands": positions, "longest_move_list": maxlen,
                                     "repetition_answers": reps, "repetition_answers_true": rep_true,
-                                    "successors_entered_by_the_real_depth1_search": seen, "of_which_returned_by_the_repetition_rule": seen_rep}
+                                    "successors_entered_by_the_real_depth1_search": seen, "of_which_returned_by_the_repetition_rule": seen_rep,
+                                    "ply2_nodes_of_the_real_depth2_search_judged": seen2, "of_which_returned_by_the_repetition_rule_at_ply_2": seen2_rep}
         if prop == "C09" and scripts_override is None and rep_true == 0 and not R.violations:
             raise ToolError("vacuity: no generated history contained a successor that had already occurred twice")
         if prop == "C09" and scripts_override is None and seen_rep == 0 and not R.violations:
